@@ -266,6 +266,10 @@ def main(argv=None):
         layers.append((Lc, [(b"\x22\x01", None), (b"\x22\x01\x00\x05", None), (b"\x22", None)]))
         Le = dict(services=[dict(id=1, name="svc1", req=dict(id=1, name="rq1", params=named([cc.param(None, dict(k="value", dop=cc.simple(cc.std(cc.BUINT, 8)), dflt=None))], "a"), resp=False), pos=[], neg=[])], gnrs=[])
         layers.append((Le, [(b"\x05", None)]))
+        Ls = dict(services=[dict(id=1, name="svc1", req=dict(id=1, name="rq1", params=named([u8(0x3E), cc.param(None, dict(k="value", dop=cc.simple(cc.std(cc.BUINT, 8)), dflt=None))], "a"), resp=False),
+                                 pos=[dict(id=2, name="pr2", params=named([u8(0x7E), cc.param(None, dict(k="value", dop=cc.simple(cc.std(cc.BUINT, 16)), dflt=None))], "b"), resp=True),
+                                      dict(id=3, name="pr3", params=named([u8(0x7E)], "c"), resp=True)], neg=[])], gnrs=[])
+        layers.append((Ls, [(b"\x7e\x01", None), (b"\x7e", None), (b"\x7e\x00\x01", None)]))
         for _ in range(60 if quick else 700):
             layers.append((gen_layer(rng), None))
     alpha = SIDS + [0x50, 0x62, 0x7E, 0x7F, 0x01, 0x02, 0x00, 0x11, 0xFF]
